@@ -152,12 +152,20 @@ let check_inv key_of (t: 'e tree) (p: pool) ~(force: bool) =
     if not (pool_ok t p) then mismatch "INV_POOL" ~impl:"slots are not partitioned into sentinel / tree / free list" ~model:"pool_ok"
   end
 
+let peak = ref 0 and cap_hint = ref 0
 let compare_tree_snap (coll: string) key_of (snap: 'e snap) (mt: 'e tree) (mp: pool) =
   match snap with
   | NoSnap -> ()
   | Broken why -> mismatch "INV_LINKS" ~impl:why ~model:"consistent links"
   | Snap (t, p) ->
     stat "snapshots";
+    (* C11: slots ever allocated <= 3 * (peak population + 1) + max (capacity hint) 8 *)
+    let stored = int_of_nat (size0 t) in
+    if stored > !peak then peak := stored;
+    let bound = 3 * (!peak + 1) + max !cap_hint 8 in
+    if int_of_n p.blen > bound then
+      mismatch "BOUND" ~impl:(Printf.sprintf "buffer of %d slots, peak population %d, capacity hint %d" (int_of_n p.blen) !peak !cap_hint)
+        ~model:(Printf.sprintf "<= 3*(peak+1) + max(hint,8) = %d" bound);
     note_shape coll t;
     let slots_ok = (t = mt) && p = mp in
     if strip_slots t <> strip_slots mt then mismatch "SHAPE" ~impl:"tree shape/colours/entities differ" ~model:"model tree"
@@ -354,7 +362,19 @@ let process_op_line (st: hstate ref) (line: string) ~(terminated: bool) =
           | ML _ -> ())
        | HKey (false, m, _) ->
          (match !m with KT s -> compare_tree_snap !cur_coll (fun e -> e.kk) (parse_tree_snap kent_of 3 snap) s.kroot s.kpl | _ -> ())
-       | HSeg (m, _, _) ->
+       | HSeg (m, _, (lo, hi)) ->
+         (* C14 evaluated directly on what the implementation built *)
+         let len = hi - lo + 1 in
+         stat "layouts";
+         if (ans = "none") <> (len <= 16) then mismatch "LAYOUTSPEC" ~impl:(Printf.sprintf "new over %d points -> %s" len ans) ~model:"failure exactly for 16 or fewer points";
+         (match words snap with
+          | ["L"; mn; mx; sc; cnt] ->
+            let mn = int_of_string mn and mx = int_of_string mx and sc = int_of_string sc and cnt = int_of_string cnt in
+            let pow k = 1 lsl k in
+            if mn <> lo || mx <> hi || sc < 0 || sc > 57 || 32 * pow sc < len || (sc > 0 && 32 * pow (sc - 1) >= len)
+               || cnt <> ((hi - lo) asr sc) + 32 || ((hi - lo) asr sc) > 31 then
+              mismatch "LAYOUTSPEC" ~impl:snap ~model:"buckets of the smallest power-of-two width for which 32 cover the domain; one place per heap node up to bucket(hi)"
+          | _ -> ());
          let model = (match !m with None -> "none" | Some _ -> "ok") in
          if ans <> model then mismatch "LAYOUT" ~impl:("new -> " ^ ans) ~model:("new -> " ^ model);
          (match !m with
@@ -379,6 +399,17 @@ let process_op_line (st: hstate ref) (line: string) ~(terminated: bool) =
           if no_handles ans <> no_handles ma then mismatch "ANS" ~impl:ans ~model:ma;
           if no_handles ans <> sa then mismatch "SPEC" ~impl:(no_handles ans) ~model:sa;
           if only_handles ans <> only_handles ma then mismatch "HANDLES" ~impl:ans ~model:ma;
+          (* the abstraction of the implementation's state is the specification's state *)
+          let sorted_spec = List.sort compare (List.map (fun (a, b) -> (int_of_z a, int_of_z b)) !spec) in
+          let fmt_pairs l = unwords (List.map (fun (a, b) -> Printf.sprintf "%d %d" a b) l) in
+          (match !m with
+           | MT _ ->
+             (match parse_tree_snap ment_of 2 snap with
+              | Snap (t, _) ->
+                let impl_ents = List.map (fun (a, b) -> (int_of_z a, int_of_z b)) (ents t) in
+                if impl_ents <> sorted_spec then mismatch "ABS" ~impl:(fmt_pairs impl_ents) ~model:(fmt_pairs sorted_spec)
+              | _ -> ())
+           | ML _ -> if snap <> "-" && snap <> fmt_pairs sorted_spec then mismatch "ABS" ~impl:snap ~model:(fmt_pairs sorted_spec));
           (match !m with
            | MT s -> compare_tree_snap !cur_coll mkey (parse_tree_snap ment_of 2 snap) s.root s.pl
            | ML l ->
@@ -486,6 +517,18 @@ let process_op_line (st: hstate ref) (line: string) ~(terminated: bool) =
                    let model_places = fmt_chunks s'.chunks in
                    if canon_chunks impl_places <> canon_chunks model_places then mismatch "CHUNKS" ~impl:impl_places ~model:model_places
                    else if impl_places <> model_places then mismatch "CHUNKORDER" ~impl:impl_places ~model:model_places;
+                   (* C15: the places that received the new value tile its bucket range; at most 8 copies *)
+                   (match so with
+                    | SIns (a, b, (id, _)) ->
+                      stat "tiling_checks";
+                      let ids = string_of_int (int_of_z id) ^ "/" in
+                      let ps = List.filter_map (fun w -> match split_on ":" w with
+                        | Some (i, body) -> if List.exists (fun c -> starts_with ids c) (String.split_on_char ',' body) then Some (n_of_int (int_of_string i)) else None
+                        | None -> None) places in
+                      if not (tiles_ok ps (lindex s.lay a) (lindex s.lay b)) then
+                        mismatch "TILING" ~impl:(unwords (List.map (fun p -> string_of_int (int_of_n p)) ps))
+                          ~model:(Printf.sprintf "at most 8 places tiling buckets %d..%d exactly" (int_of_n (lindex s.lay a)) (int_of_n (lindex s.lay b)))
+                    | _ -> ());
                    (* C16: after a fully consumed whole-domain query nothing expired is stored *)
                    (match full_domain_t with
                     | Some t ->
@@ -552,6 +595,7 @@ let () =
           Hashtbl.replace answers !cur_hist !my_answers;
           if Hashtbl.length answers > 64 then Hashtbl.remove answers (!cur_hist - 64);
           let cap = (match ps with c :: _ -> c | [] -> 0) in
+          peak := 0; cap_hint := cap;
           st := (match coll with
             | "maptree" -> HMap ({ is_set = false; is_list = false }, ref (MT (m_new (n_of_int cap))), ref [], ref [], ref [])
             | "settree" -> HMap ({ is_set = true; is_list = false }, ref (MT (m_new (n_of_int cap))), ref [], ref [], ref [])
